@@ -28,6 +28,8 @@ type follower struct {
 	endedOnRevert int
 	tie           *tie
 	dead          bool // UpdateChainState failed: the store is no longer meaningful
+	rng           *vh.RNG
+	faults        int
 }
 
 // chainNode is the node under test as the tie needs it.
@@ -69,6 +71,22 @@ func (f *follower) step(cm *chain.Manager) (bool, error) {
 		f.endedOnRevert++
 	}
 	f.steps++
+	// a dependency failing in the middle: in a chunk that carries a reorg (reverts followed by
+	// applies) the store fails one call of the revert phase once.  UpdateChainState must report the
+	// error (the store then rolls its transaction back) and the same chunk must go through afterwards.
+	if f.rng != nil && len(rus) > 0 && len(aus) > 0 && f.rng.Chance(1, 3) {
+		kind := []string{"revert-index", "revert-proofs"}[f.rng.Intn(2)]
+		f.store.mu.Lock()
+		f.store.failKind, f.store.failAt = kind, 1+f.rng.Intn(len(rus))
+		f.store.mu.Unlock()
+		err := f.store.applyChunk(f.w, rus, aus)
+		f.faults++
+		if err == nil {
+			f.tie.c.Oracle("update-error-swallowed", "the store failed a %s call while a chunk of %d reverts and %d applies was processed, yet UpdateChainState reported success: the store now holds a half-processed reorg", kind, len(rus), len(aus))
+			f.dead = true
+			return true, nil
+		}
+	}
 	if err := f.store.applyChunk(f.w, rus, aus); err != nil {
 		f.dead = true
 		f.tie.c.Oracle("sync-error", "processing a chunk of %d reverts and %d applies from %v failed: %v", len(rus), len(aus), tip, err)
@@ -155,6 +173,7 @@ func runHistory(name string, seed uint64, size int) []*vh.Case {
 	for i, ch := range chunkSizes {
 		fs[i] = newFollower(w.W.sk, nd.CM, ch)
 		fs[i].tie = newTie(fmt.Sprintf("%s-chunk%d", name, ch), w.W.addr)
+		fs[i].rng = rng.Fork()
 		defer fs[i].w.Close()
 	}
 	refs := []*refFollower{newRefFollower(w.W.sk, nd.CM, false), newRefFollower(w.W.sk, nd.CM, true)}
@@ -313,6 +332,9 @@ func runHistory(name string, seed uint64, size int) []*vh.Case {
 	for _, f := range fs {
 		f.tie.c.Nontrivial = c.Nontrivial
 		f.tie.c.Tags = []string{fmt.Sprintf("chunk:%d", f.chunk)}
+		if f.faults > 0 {
+			f.tie.c.Tags = append(f.tie.c.Tags, "store-fault-injected")
+		}
 		f.tie.c.Info = map[string]any{"seed": seed, "history": name}
 		out = append(out, f.tie.c)
 	}
